@@ -125,7 +125,13 @@ func genCase(t *rapid.T, clustered bool) Case {
 			st.End = "rollback"
 		}
 		st.Mid = genAction(t, &c, "mid", 75)
-		for _, p := range rapid.Permutation(procs).Draw(t, "order") {
+		// Reads go through the registry and so repopulate the L2 cache; a quarter of the inner steps
+		// have none, so that a partly populated L2 cache survives into the next transaction.
+		order := rapid.Permutation(procs).Draw(t, "order")
+		if si < nsteps-1 && rapid.IntRange(0, 3).Draw(t, "noreads") == 0 {
+			order = nil
+		}
+		for _, p := range order {
 			st.Reads = append(st.Reads, ReadStep{
 				Pre:       genAction(t, &c, "rpre", 90),
 				P:         p,
@@ -143,8 +149,8 @@ func genCase(t *rapid.T, clustered bool) Case {
 func judge(t interface {
 	Fatalf(string, ...any)
 	Logf(string, ...any)
-}, c Case, listed, listedReorder bool) *outcome {
-	out := runCase(c, listed, listedReorder)
+}, c Case, listed bool) *outcome {
+	out := runCase(c, listed)
 	if out.harnessErr != "" {
 		t.Fatalf("%s\n--- history ---\n%s", out.harnessErr, strings.Join(out.trace, "\n"))
 	}
@@ -180,9 +186,6 @@ func record(c Case, out *outcome) {
 	for i := 0; i < out.excluded; i++ {
 		r.Exclude(knownSlug + ": a process about to read a node it wrote earlier and that another process replaced since was restarted first")
 	}
-	for i := 0; i < out.exclReorder; i++ {
-		r.Exclude(reorderSlug + ": a commit about to start with only part of the tree's handles in the L2 cache; the L2 cache was emptied first")
-	}
 	for _, e := range out.commitErrs {
 		r.Sample("commit-failed", e)
 	}
@@ -193,19 +196,18 @@ func record(c Case, out *outcome) {
 
 func TestC20_Clustered(t *testing.T) {
 	rec()
-	listed, listedReorder := stats.Known("C20", knownSlug), stats.Known("C20", reorderSlug)
+	listed := stats.Known("C20", knownSlug)
 	rapid.Check(t, func(t *rapid.T) {
 		c := genCase(t, true)
-		record(c, judge(t, c, listed, listedReorder))
+		record(c, judge(t, c, listed))
 	})
 }
 
 func TestC20_Standalone(t *testing.T) {
 	rec()
-	listedReorder := stats.Known("C20", reorderSlug)
 	rapid.Check(t, func(t *rapid.T) {
 		c := genCase(t, false)
-		record(c, judge(t, c, false, listedReorder))
+		record(c, judge(t, c, false)) // one process: the listed class (another process replaced ...) cannot occur
 	})
 }
 
@@ -229,7 +231,7 @@ func TestC20_Known_l1_handle_cache_serves_replaced_node(t *testing.T) {
 		t.Skip("not listed")
 	}
 	for _, mode := range []string{"N", "R"} {
-		out := runCase(knownCase(mode), false, false)
+		out := runCase(knownCase(mode), false)
 		if out.harnessErr != "" {
 			t.Fatalf("%s", out.harnessErr)
 		}
@@ -262,29 +264,39 @@ func reorderCase(n int) Case {
 	return c
 }
 
-// TestC20_Known_partial_l2_hit_reorders_handles_in_commit replays the minimal history of the
-// second finding without rapid (the order SOP asks for handles in depends on Go map iteration,
-// so a few variants are tried).
+// leadCase is the single-process form of the same defect (reported by another check): T1 Add(7)
+// Upsert(0) Upsert(2); L2 Clear; T2 Remove(2) Add(9); T3 Add(4) Add(1), with no reads in between (a
+// read would go through the registry and repopulate the L2 cache); then a read-all, and another
+// one by a fresh process.
+func leadCase() Case {
+	return Case{Clustered: false, NProc: 1, HashMod: 1, Keys: 10, UUIDSeed: 5,
+		Stores: []StoreSpec{{Name: "st0", Slot: 2, Placement: 1, Balancing: true, CacheKind: "default"}},
+		Steps: []Step{
+			{End: "commit", Ops: []Op{{Kind: "add", K: 7, Tag: "a7"}, {Kind: "upsert", K: 0, Tag: "a0"}, {Kind: "upsert", K: 2, Tag: "a2"}}},
+			{Pre: "l2clear", End: "commit", Ops: []Op{{Kind: "remove", K: 2}, {Kind: "add", K: 9, Tag: "b9"}}},
+			{End: "commit", Ops: []Op{{Kind: "add", K: 4, Tag: "c4"}, {Kind: "add", K: 1, Tag: "c1"}},
+				Reads: []ReadStep{{P: 0, Mode: "R"}, {Pre: "restart:0", P: 0, Mode: "N"}}},
+		}}
+}
+
+// TestC20_Known_partial_l2_hit_reorders_handles_in_commit is the regression test of the second
+// finding, repaired in /repo (f6562708, listed under "fixed"): always on, fails if it comes back.
+// The order in which SOP asks for handles depends on Go map iteration, so a few variants run.
 func TestC20_Known_partial_l2_hit_reorders_handles_in_commit(t *testing.T) {
-	if !stats.Known("C20", reorderSlug) && os.Getenv("VERIF_C20_FORCE_KNOWN") == "" {
-		t.Skip("not listed")
+	cases := []Case{leadCase(), leadCase()}
+	for n := 1; n <= 4; n++ {
+		cases = append(cases, reorderCase(n))
 	}
-	for n := 1; n <= 6; n++ {
-		out := runCase(reorderCase(n), true, false)
+	for i, c := range cases {
+		// the class of the other (listed) finding is kept out of these histories
+		out := runCase(c, true)
 		if out.harnessErr != "" {
 			t.Fatalf("%s", out.harnessErr)
 		}
-		if out.violation == "" {
-			continue
+		if out.violation != "" {
+			t.Fatalf("regression history %d: %s", i, report(c, out))
 		}
-		if out.class != reorderSlug {
-			t.Fatalf("the minimal history fails with another signature (class=%s): %s", out.class, out.violation)
-		}
-		t.Logf("reproduced (variant %d): %s\n%s", n, out.violation, strings.Join(out.trace, "\n"))
-		rec().KnownFinding(fmt.Sprintf("%s: %s", reorderSlug, out.violation))
-		return
 	}
-	t.Logf("no longer reproduces")
 }
 
 // TestReplay runs a JSON case (replays/C20/replay-c20-*.json) without rapid.
@@ -301,7 +313,6 @@ func TestReplay(t *testing.T) {
 	if err := json.Unmarshal(b, &c); err != nil {
 		t.Fatalf("HARNESS-ERROR: %s is not a C20 case: %v", p, err)
 	}
-	ex := os.Getenv("VERIF_C20_NOEXCLUDE") == ""
-	out := judge(t, c, ex && stats.Known("C20", knownSlug), ex && stats.Known("C20", reorderSlug))
+	out := judge(t, c, os.Getenv("VERIF_C20_NOEXCLUDE") == "" && stats.Known("C20", knownSlug))
 	t.Logf("held; history:\n%s", strings.Join(out.trace, "\n"))
 }
